@@ -8,6 +8,7 @@ pub mod c14;
 pub mod c15;
 pub mod c16;
 pub mod c17;
+pub mod c18;
 pub mod c19;
 pub mod c20;
 pub mod shared;
@@ -26,6 +27,7 @@ pub fn all(seed: u64) -> Vec<Scenario> {
     v.extend(c15::scenarios(seed));
     v.extend(c16::scenarios(seed));
     v.extend(c17::scenarios(seed));
+    v.extend(c18::scenarios(seed));
     v.extend(c19::scenarios(seed));
     v.extend(c20::scenarios(seed));
     for p in ["C02", "C03", "C08", "C10"] {
